@@ -68,7 +68,7 @@ MANIFEST = {
     "text": "Bounded model checking of the real lifecycle code of mod.c: one call from every state x flags x tokens x "
             "context state (the transition relation is decided completely for one step, incl. a nested call from "
             "on_start), and one evaluation pass over NM modules with every combination of states and callback results; "
-            "callback counts, running-module counter and MOD_STARTED/MOD_STOPPED emission are asserted",
+            "callback counts, running-module counter and MOD_STARTED/MOD_STOPPED emission are asserted; on_eval re-entering the lifecycle of its own module (deregister / stop / start)",
     "note": "polling layer (manage_srcs, init_pubsub_fd) stubbed to success in the unit; multi-call histories rely on the "
             "one-step relation plus the whole-core scenarios; bound modules outside the claim",
 }
